@@ -49,8 +49,9 @@ theorem extOfTy_wide (t : Ty) (h : t = .i64 ∨ t = .u64 ∨ t = .p ∨ t.isBlk 
   · cases t <;> simp [Ty.isBlk] at h <;> rfl
 
 /-- the shortcut rows of the current mir.c are the model's -/
-theorem gen_shortcut_rows : Gen.C04.shortcutRows.length = shortcutRowsModel.length ∧
-    (∀ r ∈ Gen.C04.shortcutRows, r ∈ shortcutRowsModel) ∧ (∀ r ∈ shortcutRowsModel, r ∈ Gen.C04.shortcutRows) := by
+theorem gen_shortcut_rows : Gen.C04.shortcutRows.length = (shortcutRowsModel Gen.C04.muloRow).length ∧
+    (∀ r ∈ Gen.C04.shortcutRows, r ∈ shortcutRowsModel Gen.C04.muloRow) ∧
+    (∀ r ∈ shortcutRowsModel Gen.C04.muloRow, r ∈ Gen.C04.shortcutRows) := by
   decide +kernel
 
 theorem gen_bt_const : Gen.C04.btConstCodes = ["BT", "BTS", "BF", "BFS"] ∧ Gen.C04.btJumpIfOne = ["BT", "BTS"] := by
